@@ -92,6 +92,12 @@ func mkSide(cues []cueSpec, styles, regions []string, bare bool, tag string, bar
 
 func checkC12(c c12Case) string {
 	a, aItems := mkSide(c.A, c.AStyles, c.ARegions, c.BareReceiver, "A", c.BareDefs)
+	if c.OrderOnly && c.Ghosts && len(aItems) > 0 {
+		// (order cases reuse the flag) the list holds its first cue a second time, the same object
+		c.A = append(append([]cueSpec(nil), c.A...), c.A[0])
+		a.Items = append(a.Items, aItems[0])
+		aItems = append(aItems, aItems[0])
+	}
 	if c.OrderOnly {
 		snaps := make([]itemSnap, len(aItems))
 		for i, it := range aItems {
@@ -350,7 +356,7 @@ func unionKeys[V any](a, b map[string]V) map[string]bool {
 func TestC12(t *testing.T) {
 	runWitnesses(t, "C12")
 	cliCases(t, "C12", "merge")
-	ids := []string{"a", "b", "c", "d"}
+	ids := []string{"a", "b", "c", "d", "A", "D"} // identifiers are case-sensitive
 	genIDs := func(rt *rapid.T, label string) []string {
 		var out []string
 		for _, id := range ids {
@@ -364,7 +370,7 @@ func TestC12(t *testing.T) {
 		maxT := rapid.SampledFrom([]int64{5 * nsMs, 100 * nsMs, 3600 * 1000 * nsMs}).Draw(rt, "range")
 		// sort.Slice is only unstable above 12 elements: lists of up to 40 cues with many equal starts
 		maxN := rapid.SampledFrom([]int{10, 10, 40}).Draw(rt, "maxn")
-		c := c12Case{A: genCues(rt, 0, maxN, maxT, opTexts), OrderOnly: true, AStyles: genIDs(rt, "as")}
+		c := c12Case{A: genCues(rt, 0, maxN, maxT, opTexts), OrderOnly: true, AStyles: genIDs(rt, "as"), Ghosts: rapid.IntRange(0, 3).Draw(rt, "samecuetwice") == 0}
 		ties, unordered := false, false
 		seen := map[int64]bool{}
 		for i, cu := range c.A {
